@@ -683,19 +683,6 @@ class Analyzer:
         self.ret_types[key] = t
         return t
 
-    def infer_return_old(self, ctx, fn):
-        rets = [n.value for n in ast.walk(fn) if isinstance(n, ast.Return) and n.value is not None]
-        ts = []
-        for r in rets:
-            if isinstance(r, ast.Call) and isinstance(r.func, ast.Name) and r.func.id in self.U.by_name:
-                cs = self.U.by_name[r.func.id]
-                ts.append(PY if all(self.U.is_value(c) for c in cs) else frozenset(cs))
-            elif isinstance(r, ast.Constant):
-                ts.append(PY)
-            else:
-                return None
-        return join_types(ts) if ts else None
-
     def instance_attr_type(self, ctx, attr):
         """type of self.attr for a plain instance attribute: class-level annotation or an assignment
         from an annotated __init__ parameter."""
